@@ -21,6 +21,7 @@ from vf.monitor import Probes
 from vf.shrink import shrink_tokens
 import vf.gen.url as G
 
+MIN_RANDOM = 150  # random iterations run per shard whatever the wall-clock budget (floors must not depend on machine load)
 SHARDS = {"quick": 4, "thorough": 16}
 BUDGET = {"quick": 20, "thorough": 240}
 MIN_CASES = {"quick": 200000, "thorough": 1500000}
@@ -1243,7 +1244,7 @@ def run(ctx):
 
         it = 0
         lim = 9000 if quick else 10 ** 9
-        while ctx.time_left() and it < lim:
+        while (ctx.time_left() or it < MIN_RANDOM) and it < lim:
             it += 1
             c = G.random_case(rng, max_tok=3, rich=False)
             u = G.render(c)
